@@ -265,7 +265,7 @@ def run(ctx, rep):
     entries = [b for b in prog.by_crate["rustic_core"] if b.kind in ("Fn", "AssocFn") and b.pub and b.reachable]
     excluded = [b for b in entries if is_storage_layer(b)]
     entries = [b for b in entries if not is_storage_layer(b)]
-    rep.floor("C15.a", "public entry points", len(entries), 300)
+    rep.floor("C15.a", "public entry points", len(entries), 200)
     sites_all = set()
     n_pairs = 0
     guards = []
@@ -296,7 +296,7 @@ def run(ctx, rep):
     rep.count("C15.a: entries excluded as storage layer", len(excluded))
     rep.count("C15.a: (entry, RM(Key)) pairs listed, outside the statement", len(key_sites))
     # floor: the removal sites confirmed by reading (delete_list closure, plus direct removes)
-    rep.floor("C15.a", "(entry, removal site) pairs", n_pairs, 8)
+    rep.floor("C15.a", "(entry, removal site) pairs", n_pairs, 5)
 
     # ---- C15.b: the config file (the one non content-addressed file) is rewritten only behind the guard -----
     INIT_OK = {"repository::Repository::<S>::init": "creates a new repository: nothing stored yet",
@@ -357,7 +357,7 @@ def run(ctx, rep):
     for b in prog.by_crate["rustic_core"]:
         if any(dry_forced(b, bb) is not None for bb in range(len(b.blocks))):
             readers.append(b)
-    rep.floor("C15.c", "functions testing a dry_run flag", len(readers), 6)
+    rep.floor("C15.c", "functions testing a dry_run flag", len(readers), 4)
     for b in readers:
         if is_storage_layer(b):
             continue
